@@ -241,10 +241,8 @@ MC_FAMILIES = {  # cfg file, (quick depth, thorough depth)
 MC_FAMILY_CFG = {"accounts": 8, "dids": 2, "validators": 2, "balance": 10000000, "blockReward": 840}
 
 
-def _mc_family(args):
-    binary, workdir, tier, fam, cfgfile, depths = args
-    d = os.path.join(workdir, fam)
-    stage_spec(d)
+def family_gcfg(fam):
+    """The world (harness configuration) an exhaustive family starts from."""
     gcfg = MC_CFG if fam in ("timeout", "sponsor", "migrate", "version", "debt", "stagger") else MC_FAMILY_CFG   # long time jumps: no block reward there
     if fam == "rewardage":
         gcfg = dict(MC_FAMILY_CFG, blockReward=2520, rewardBase="199999999995000")
@@ -254,6 +252,67 @@ def _mc_family(args):
         gcfg = dict(MC_FAMILY_CFG, validators=3, maxValidators=2, vstorThreshold=2000000)
     if fam == "sidauth":
         gcfg = dict(MC_FAMILY_CFG, accounts=12)           # a09..a11 create and are bound to the sid DIDs
+    return gcfg
+
+
+FAMSIM_PLAN = {"quick": (2, 4), "thorough": (12, 8)}   # (behaviours per family, events beyond the family's exhaustive depth)
+
+
+def _simulate_family(args):
+    """Spec -> code for one exhaustive family: TLC walks the family's own alphabet at random, deeper than the exhaustive run
+    goes; the behaviours are replayed on the real code."""
+    import re as _re
+    binary, outdir, tier, seed, fam, cfgfile, depths = args
+    per, beyond = FAMSIM_PLAN[tier]
+    d = os.path.join(outdir, fam)
+    stage_spec(d)
+    gcfg = json.dumps(family_gcfg(fam))
+    rc, o, _ = run([binary, "genesis", "--cfg", gcfg, "--out", os.path.join(d, "genesis.json")])
+    if rc != 0:
+        raise MachineryError("genesis failed: " + o[-1000:])
+    cfg0 = open(os.path.join(d, cfgfile)).read()
+    cfg0 = _re.sub(r"Family = \"\w+\"", 'Family = "%s"' % ("reward" if fam == "rewardage" else fam), cfg0)
+    cfg0 = "\n".join(l for l in cfg0.splitlines() if not l.startswith(("INVARIANT", "CONSTRAINT", "VIEW"))) + "\nCONSTRAINT DumpBehaviour\n"
+    have = []
+    # a behaviour is written when a walk reaches the depth; the life cycles of some families end earlier (everything is
+    # terminated or refunded, nothing is enabled any more): shorter walks are asked for then
+    for depth in (depths[1] + beyond, depths[1], depths[0], 4):
+        open(os.path.join(d, "MC_Sim.cfg"), "w").write(_re.sub(r"MaxEvents = \d+", "MaxEvents = %d" % depth, cfg0))
+        rc, out, _ = run(["timeout", "600", "tlc", "-workers", "1", "-simulate", "num=%d" % (per * 3), "-depth", str(depth + 5), "-seed", str(seed * 977 + 5),
+                          "-metadir", os.path.join(d, "meta%d" % depth), "-config", "MC_Sim.cfg", "MC.tla"], cwd=d,
+                         env=dict(os.environ, JAVA_TOOL_OPTIONS="-Xmx2g"), timeout=700)
+        have = sorted(f for f in os.listdir(d) if f.startswith("beh_") and f.endswith(".json"))
+        if have:
+            break
+    for f in have[per:]:
+        os.remove(os.path.join(d, f))
+    have = have[:per]
+    if not have:
+        return fam, [], 0     # (a starved process contributes nothing)
+    rd = os.path.join(d, "real")
+    rc, rout, _ = run([binary, "replay", "--in", d, "--out", rd, "--cfg", gcfg], timeout=900)
+    if rc not in (0, 3):
+        raise MachineryError("replay of family %s behaviours failed rc=%d: %s" % (fam, rc, rout[-1500:]))
+    return fam, sorted(os.path.join(rd, f) for f in os.listdir(rd) if f.endswith(".ndjson")), len(have)
+
+
+def simulate_families(binary, outdir, tier, seed):
+    from concurrent.futures import ThreadPoolExecutor
+    os.makedirs(outdir, exist_ok=True)
+    jobs = [(binary, outdir, tier, seed, fam, cfgfile, depths) for fam, (cfgfile, depths) in MC_FAMILIES.items()]
+    files, per_family = [], {}
+    with ThreadPoolExecutor(max_workers=5) as ex:
+        for fam, fs, n in ex.map(_simulate_family, jobs):
+            files += fs
+            per_family[fam] = n
+    return files, {"family_behaviours": per_family}
+
+
+def _mc_family(args):
+    binary, workdir, tier, fam, cfgfile, depths = args
+    d = os.path.join(workdir, fam)
+    stage_spec(d)
+    gcfg = family_gcfg(fam)
     rc, o, _ = run([binary, "genesis", "--cfg", json.dumps(gcfg), "--out", os.path.join(d, "genesis.json")])
     if rc != 0:
         raise MachineryError("genesis failed: " + o[-1000:])
@@ -404,6 +463,10 @@ def family_run(tier, seed, use_cache=True):
         dstats.update(gstats)
         dstats["traces"] += len(gfiles)
         files = files + gfiles
+        ffiles, fstats = simulate_families(binary, os.path.join(rdir, "famsim"), tier, seed)
+        dstats.update(fstats)
+        dstats["traces"] += len(ffiles)
+        files = files + ffiles
         sfiles = replay_scenarios(binary, os.path.join(rdir, "scenarios"))
         dstats["scenarios"] = len(sfiles)
         dstats["traces"] += len(sfiles)
